@@ -8,6 +8,7 @@ import (
 	"math"
 	"os"
 	"reflect"
+	"runtime"
 	"sort"
 	"strconv"
 	"strings"
@@ -27,8 +28,15 @@ import (
 //               (otherwise executed again, never compared)
 // late        : an operation executed while the callback of the key's timer is
 //               already waiting for the store's mutex (forced with the mutex)
+// slow        : forced schedule: a listener whose reception of a message (the initial data
+//               of its join, or a notification) takes long, and the next operation of the
+//               history issued meanwhile.  Every method is one critical section that includes
+//               its notifications, so on the code as it is the second operation waits and the
+//               history is the sequential one (compared with the model, judged by P_C14); an
+//               operation that gets through during the delivery shows in the trace as it
+//               happened (the listener's replica no longer follows the store)
 // concurrent  : several goroutines; consistent cuts (log, data) judged by the
-//               replica part of the property only
+//               replica part of the property only; listeners that join meanwhile are slow
 
 // ---- values -------------------------------------------------------------------
 
@@ -172,18 +180,42 @@ type c14Rec struct {
 	l     int
 	m     string
 	stamp time.Time
+	goid  int64 // goroutine that delivered it (slow pairs only)
 }
 
 type c14Recorder struct {
-	mu   sync.Mutex
-	recs []c14Rec
-	bad  []string
+	mu       sync.Mutex
+	recs     []c14Rec
+	bad      []string
+	wantGoid atomic.Bool
 }
 
 type c14Listener struct {
 	id   int
 	rec  *c14Recorder
 	left atomic.Bool
+
+	// forced schedule: the next message takes until release is closed
+	slowArmed atomic.Bool
+	entered   chan struct{}
+	release   chan struct{}
+	// concurrent runs: the initial data takes this long
+	initialDelay time.Duration
+}
+
+// id of the calling goroutine ("goroutine 123 [running]:")
+func c14Goid() int64 {
+	var buf [40]byte
+	n := runtime.Stack(buf[:], false)
+	f := strings.Fields(string(buf[:n]))
+	if len(f) < 2 {
+		return -1
+	}
+	id, err := strconv.ParseInt(f[1], 10, 64)
+	if err != nil {
+		return -1
+	}
+	return id
 }
 
 func (l *c14Listener) SendMessage(message *ServerMessage) bool {
@@ -206,12 +238,26 @@ func (l *c14Listener) SendMessage(message *ServerMessage) bool {
 		s = "(MInitial [(999998%N, JNull)])"
 	}
 	now := time.Now()
+	var goid int64
+	if l.rec.wantGoid.Load() {
+		goid = c14Goid()
+	}
+	// a message counts as received when the delivery begins
 	l.rec.mu.Lock()
-	l.rec.recs = append(l.rec.recs, c14Rec{l: l.id, m: s, stamp: now})
+	l.rec.recs = append(l.rec.recs, c14Rec{l: l.id, m: s, stamp: now, goid: goid})
 	if l.left.Load() {
 		l.rec.bad = append(l.rec.bad, fmt.Sprintf("listener %d received %s after RemoveListener had returned", l.id, s))
 	}
 	l.rec.mu.Unlock()
+	if l.slowArmed.CompareAndSwap(true, false) {
+		close(l.entered)
+		select {
+		case <-l.release:
+		case <-time.After(20 * time.Second):
+		}
+	} else if l.initialDelay > 0 && td != nil && td.Type == "initial" {
+		time.Sleep(l.initialDelay)
+	}
 	return true
 }
 
@@ -247,11 +293,15 @@ type c14Op struct {
 	Old int    `json:"old"` // pool index, -1 = nil
 	TTL int64  `json:"ttl"` // quiet: nanoseconds; grid: half-grid units (late: whole-grid units)
 	L   int    `json:"l"`
+	// Slow = n+1: listener n is slow in receiving the first message it is sent during this
+	// operation.  slow cases: the next operation of the history is issued while that delivery
+	// lasts.  grid cases: the delivery lasts until a fifth of a grid after the next grid point.
+	Slow int `json:"slow,omitempty"`
 }
 
 type c14Case struct {
 	Id   int     `json:"id"`
-	Kind string  `json:"kind"` // quiet | grid
+	Kind string  `json:"kind"` // quiet | grid | slow
 	End  int     `json:"end"`  // grid: slot after which the case ends
 	Ops  []c14Op `json:"ops"`
 	Note string  `json:"note,omitempty"`
@@ -394,8 +444,15 @@ var c14QuietTTLs = []int64{0, 0, 0, 0, 0, 0, int64(time.Hour), int64(time.Hour),
 
 // generated against a scratch instance so that compare operations mostly name
 // the current value
-func c14GenQuiet(r *vrng, id int) *c14Case {
-	c := &c14Case{Id: id, Kind: "quiet"}
+func c14GenQuiet(r *vrng, id int) *c14Case { return c14GenHistory(r, id, "quiet", 0) }
+
+// slowPct > 0: histories for the forced schedule.  That share of the operations (never two
+// in a row) is a join of a listener whose reception of the initial data is slow -- the next
+// operation is issued meanwhile -- and a tenth of the others have a listener that is slow in
+// receiving the notification.
+func c14GenHistory(r *vrng, id int, kind string, slowPct int) *c14Case {
+	c := &c14Case{Id: id, Kind: kind}
+	prevSlow := false
 	w := c14NewWorld()
 	defer w.stopAll()
 	nkeys := 1 + r.intn(4)
@@ -470,10 +527,216 @@ func c14GenQuiet(r *vrng, id int) *c14Case {
 		default:
 			o.K = "removel"
 		}
+		if slowPct > 0 {
+			switch {
+			case prevSlow:
+				prevSlow = false
+			case len(w.td.GetData()) > 0 && r.chance(slowPct):
+				l := r.intn(4)
+				o = c14Op{K: "addl", Old: -1, L: l, Slow: l + 1}
+				prevSlow = true
+			case r.chance(10):
+				o.Slow = 1 + r.intn(4)
+				if o.K == "addl" {
+					o.Slow = o.L + 1
+				}
+				prevSlow = true
+			}
+		}
 		w.exec(o, c14TTLOf(o, "quiet", 0))
 		c.Ops = append(c.Ops, o)
 	}
 	return c
+}
+
+// ---- slow cases: an operation issued while a listener is still receiving ----------------
+
+// the store's map as it is now.  Called while the goroutine of an operation is held inside a
+// listener: either that goroutine owns the store's mutex (the code as it is), or the mutex
+// can be taken.
+func (w *c14World) dataNow() (string, bool) {
+	free := w.td.mu.TryLock()
+	s := c14DataCoq(w.td.data)
+	if free {
+		w.td.mu.Unlock()
+	}
+	return s, free
+}
+
+// arms listener n: the next message it is sent takes until release is closed
+func (w *c14World) armSlow(n int) *c14Listener {
+	l := w.listener(n)
+	l.entered = make(chan struct{})
+	l.release = make(chan struct{})
+	l.slowArmed.Store(true)
+	return l
+}
+
+// Operation p with listener p.Slow-1 slow; x (if any) is issued while the delivery lasts.
+// Returns the trace entries in the order in which things happened: p's delivery began before
+// x was called.  If x had to wait for p (the store's mutex is held during the delivery, as
+// every method of TransientData does), the messages are attributed by the goroutine that
+// delivered them, and the history is the sequential one.  If x returned while the delivery
+// still lasted, p's entry lists what had been delivered until then and x's entry everything
+// that arrived afterwards, in the order of arrival.
+func (w *c14World) execSlow(p c14Op, x *c14Op) (entries []string, changes int, blocked, early bool) {
+	ttlP := c14TTLOf(p, "quiet", 0)
+	L := w.armSlow(p.Slow - 1)
+	w.rec.wantGoid.Store(true)
+	defer w.rec.wantGoid.Store(false)
+	entry := func(o c14Op, ttl time.Duration, ret bool, recs []c14Rec, snap string) {
+		if ret || len(recs) > 0 {
+			changes++
+		}
+		entries = append(entries, fmt.Sprintf("(%s, (%s, %s, %s))", c14OpCoq(o, ttl), coqBool(ret), c14OutsCoq(recs), snap))
+	}
+	var retP, retX bool
+	var gX int64
+	doneP := make(chan struct{})
+	go func() { retP = w.exec(p, ttlP); close(doneP) }()
+	select {
+	case <-L.entered:
+		blocked = true
+	case <-doneP:
+	}
+	if !blocked {
+		// nothing was sent to that listener: two ordinary operations
+		L.slowArmed.Store(false)
+		w.noteTimers(time.Now(), ttlP)
+		n := w.rec.length()
+		entry(p, ttlP, retP, w.rec.slice(w.pos, n), c14DataCoq(w.td.GetData()))
+		w.pos = n
+		if x != nil {
+			ttlX := c14TTLOf(*x, "quiet", 0)
+			retX = w.exec(*x, ttlX)
+			w.noteTimers(time.Now(), ttlX)
+			n = w.rec.length()
+			entry(*x, ttlX, retX, w.rec.slice(w.pos, n), c14DataCoq(w.td.GetData()))
+			w.pos = n
+		}
+		return
+	}
+	snapP, free := w.dataNow()
+	nBlock := w.rec.length()
+	var ttlX time.Duration
+	snapX := ""
+	if x != nil {
+		ttlX = c14TTLOf(*x, "quiet", 0)
+		doneX := make(chan struct{})
+		go func() { gX = c14Goid(); retX = w.exec(*x, ttlX); close(doneX) }()
+		// with the mutex held x cannot get anywhere; otherwise give it all the time it needs
+		wait := 3 * time.Millisecond
+		if free {
+			wait = 5 * time.Second
+		}
+		select {
+		case <-doneX:
+			early = true
+			if w.td.mu.TryLock() {
+				snapX = c14DataCoq(w.td.data)
+				w.td.mu.Unlock()
+			}
+		case <-time.After(wait):
+		}
+		close(L.release)
+		<-doneP
+		<-doneX
+	} else {
+		close(L.release)
+		<-doneP
+	}
+	if snapX == "" {
+		snapX = c14DataCoq(w.td.GetData())
+	}
+	w.noteTimers(time.Now(), 0)
+	n := w.rec.length()
+	recs := w.rec.slice(w.pos, n)
+	var recsP, recsX []c14Rec
+	if early {
+		recsP, recsX = recs[:nBlock-w.pos], recs[nBlock-w.pos:]
+	} else {
+		for _, e := range recs {
+			if x != nil && e.goid == gX {
+				recsX = append(recsX, e)
+			} else {
+				recsP = append(recsP, e)
+			}
+		}
+	}
+	w.pos = n
+	entry(p, ttlP, retP, recsP, snapP)
+	if x != nil {
+		entry(*x, ttlX, retX, recsX, snapX)
+	}
+	return
+}
+
+func c14RunSlow(c *c14Case) (trace []string, changes, blocks, early int, bad []string) {
+	w := c14NewWorld()
+	defer w.stopAll()
+	defer func() { bad = append(bad, w.rec.bad...) }()
+	for i := 0; i < len(c.Ops); i++ {
+		o := c.Ops[i]
+		if o.Slow > 0 {
+			var x *c14Op
+			if i+1 < len(c.Ops) {
+				x = &c.Ops[i+1]
+				i++
+			}
+			entries, ch, b, e := w.execSlow(o, x)
+			trace = append(trace, entries...)
+			changes += ch
+			if b {
+				blocks++
+			}
+			if e {
+				early++
+			}
+			continue
+		}
+		ttl := c14TTLOf(o, "quiet", 0)
+		ret := w.exec(o, ttl)
+		w.noteTimers(time.Now(), ttl)
+		ob, recs := w.observe(ret)
+		if ret || len(recs) > 0 {
+			changes++
+		}
+		trace = append(trace, fmt.Sprintf("(%s, %s)", c14OpCoq(o, ttl), ob))
+	}
+	return
+}
+
+// a change of every kind landing in the join of a slow listener, a change landing in the
+// delivery of a notification, joins and leaves landing in a join
+func c14DirectedSlow() []*c14Case {
+	A, B, C := 0, 1, 24
+	mk := func(note string, ops ...c14Op) *c14Case { return &c14Case{Kind: "slow", Ops: ops, Note: note} }
+	set := func(key, v int) c14Op { return c14Op{K: "setnt", Key: key, V: v, Old: -1} }
+	join := func(l int) c14Op { return c14Op{K: "addl", Old: -1, L: l} }
+	slowJoin := func(l int) c14Op { return c14Op{K: "addl", Old: -1, L: l, Slow: l + 1} }
+	hour := int64(time.Hour)
+	return []*c14Case{
+		mk("set of another key while a listener joins", set(1, A), slowJoin(2), set(2, B), set(3, C)),
+		mk("remove while a listener joins", set(1, A), set(2, B), join(1), slowJoin(2), c14Op{K: "remove", Key: 1}, set(1, B)),
+		mk("replace while a listener joins", set(1, A), slowJoin(2), set(1, B), join(1), set(1, A)),
+		mk("compare-and-set while a listener joins", set(1, A), slowJoin(2), c14Op{K: "casnt", Key: 1, V: B, Old: A}, c14Op{K: "casremove", Key: 1, Old: B}),
+		mk("compare-and-remove while a listener joins", set(1, A), set(2, A), slowJoin(3), c14Op{K: "casremove", Key: 2, Old: A}),
+		mk("set with a ttl while a listener joins", set(1, A), slowJoin(0), c14Op{K: "set", Key: 2, V: B, Old: -1, TTL: hour}, c14Op{K: "set", Key: 2, V: B, Old: -1, TTL: 0}),
+		mk("unchanged set while a listener joins", set(1, A), slowJoin(2), set(1, A), set(1, B)),
+		mk("the joining listener leaves while it joins", set(1, A), slowJoin(2), c14Op{K: "removel", L: 2}, set(2, B)),
+		mk("another listener joins while a listener joins", set(1, A), slowJoin(2), join(1), set(2, B)),
+		mk("another listener leaves while a listener joins", set(1, A), join(1), slowJoin(2), c14Op{K: "removel", L: 1}, set(2, B)),
+		mk("the listener joins again while it joins", set(1, A), slowJoin(2), join(2), set(2, B)),
+		mk("two slow joins in a row", set(1, A), slowJoin(1), set(2, B), slowJoin(2), c14Op{K: "remove", Key: 1}, set(3, C)),
+		mk("set while the notification of a set is delivered", join(1), join(2), join(3),
+			c14Op{K: "setnt", Key: 1, V: A, Old: -1, Slow: 3}, set(1, B), set(1, C)),
+		mk("remove while the notification of a set is delivered", set(1, A), join(1), join(2),
+			c14Op{K: "setnt", Key: 1, V: B, Old: -1, Slow: 2}, c14Op{K: "remove", Key: 1}),
+		mk("join while the notification of a remove is delivered", set(1, A), set(2, B), join(1),
+			c14Op{K: "remove", Key: 1, Slow: 2}, join(2), set(1, C)),
+		mk("leave while a notification is delivered to that listener", set(1, A), join(1), join(2),
+			c14Op{K: "setnt", Key: 2, V: B, Old: -1, Slow: 2}, c14Op{K: "removel", L: 1}, set(3, C)),
+	}
 }
 
 // ---- grid cases ---------------------------------------------------------------------------
@@ -594,6 +857,46 @@ func c14RunGrid(c *c14Case, grid time.Duration) (trace []string, ok bool, expiri
 		t0 := time.Now()
 		if t0.Sub(start.Add(t)) > grid/4 {
 			ok = false
+		}
+		if o.Slow > 0 {
+			// the delivery of the first message to that listener lasts until a fifth of a grid
+			// after the next grid point: what is due at that grid point happens meanwhile (or,
+			// the store's mutex being held during the delivery, right afterwards)
+			L := w.armSlow(o.Slow - 1)
+			var ret bool
+			doneP := make(chan struct{})
+			go func() { ret = w.exec(o, ttl); close(doneP) }()
+			blocked := false
+			select {
+			case <-L.entered:
+				blocked = true
+			case <-doneP:
+				L.slowArmed.Store(false)
+			}
+			if blocked {
+				snap, _ := w.dataNow()
+				n := w.rec.length()
+				recs := w.rec.slice(w.pos, n)
+				w.pos = n
+				until := start.Add(time.Duration(o.At+1)*grid + grid/5)
+				c14SleepUntil(until)
+				close(L.release)
+				<-doneP
+				if time.Since(until) > grid/8 {
+					ok = false
+				}
+				w.noteTimers(time.Now(), ttl)
+				trace = append(trace, fmt.Sprintf("(%s, (%s, %s, %s))", c14OpCoq(o, ttl), coqBool(ret), c14OutsCoq(recs), snap))
+				continue
+			}
+			t1 := time.Now()
+			if t1.Sub(start.Add(t)) > grid/4 {
+				ok = false
+			}
+			w.noteTimers(t1, ttl)
+			ob, _ := w.observe(ret)
+			trace = append(trace, fmt.Sprintf("(%s, %s)", c14OpCoq(o, ttl), ob))
+			continue
 		}
 		ret := w.exec(o, ttl)
 		t1 := time.Now()
@@ -723,6 +1026,12 @@ func c14Directed() []*c14Case {
 			c14Op{K: "addl", At: 0, L: 1}, c14Op{K: "set", At: 1, Key: 1, V: A, Old: -1, TTL: 1}, c14Op{K: "late", At: 2, Key: 1, V: A, Old: -1, TTL: 0}),
 		mk("late: the callback waits while the value is replaced", 4,
 			c14Op{K: "addl", At: 0, L: 1}, c14Op{K: "set", At: 1, Key: 1, V: A, Old: -1, TTL: 1}, c14Op{K: "late", At: 2, Key: 1, V: B, Old: -1, TTL: 0}),
+		mk("a value expires while a listener joins", 3,
+			c14Op{K: "addl", At: 0, L: 1}, c14Op{K: "set", At: 0, Key: 1, V: A, Old: -1, TTL: 3}, c14Op{K: "setnt", At: 0, Key: 2, V: B, Old: -1},
+			c14Op{K: "addl", At: 1, L: 2, Slow: 3}),
+		mk("two values expire, the second while a listener joins; then a set", 5,
+			c14Op{K: "set", At: 0, Key: 1, V: A, Old: -1, TTL: 1}, c14Op{K: "set", At: 0, Key: 2, V: B, Old: -1, TTL: 5}, c14Op{K: "setnt", At: 0, Key: 3, V: A, Old: -1},
+			c14Op{K: "addl", At: 1, L: 1}, c14Op{K: "addl", At: 2, L: 2, Slow: 3}, c14Op{K: "setnt", At: 3, Key: 1, V: B, Old: -1}),
 		mk("extend, replace with ttl, expire twice", 7,
 			c14Op{K: "addl", At: 0, L: 1}, c14Op{K: "set", At: 0, Key: 1, V: A, Old: -1, TTL: 3}, c14Op{K: "set", At: 1, Key: 1, V: A, Old: -1, TTL: 5}, c14Op{K: "set", At: 2, Key: 2, V: B, Old: -1, TTL: 1},
 			c14Op{K: "set", At: 4, Key: 1, V: B, Old: -1, TTL: 1}),
@@ -794,6 +1103,8 @@ func c14Concurrent(env verifEnv, sink *caseSink, round int, id int) {
 		defer wg.Done()
 		for _, l := range lateJoin {
 			time.Sleep(time.Duration(300+r.intn(2000)) * time.Microsecond)
+			// a receiver that takes a while for the initial data
+			w.listener(l).initialDelay = time.Duration(200*(l+1)) * time.Microsecond
 			w.td.AddListener(w.listener(l))
 		}
 	}()
@@ -889,18 +1200,58 @@ func TestVerifC14(t *testing.T) {
 		}
 	}
 
+	emitSlow := func(cs []*c14Case) {
+		type res struct {
+			trace                  []string
+			changes, blocks, early int
+			bad                    []string
+		}
+		out := make([]res, len(cs))
+		var wg sync.WaitGroup
+		sem := make(chan struct{}, 8)
+		for i := range cs {
+			wg.Add(1)
+			go func(i int) {
+				defer wg.Done()
+				sem <- struct{}{}
+				defer func() { <-sem }()
+				var r res
+				r.trace, r.changes, r.blocks, r.early, r.bad = c14RunSlow(cs[i])
+				out[i] = r
+			}(i)
+		}
+		wg.Wait()
+		for i, c := range cs {
+			sink.count("slow_cases")
+			sink.stats.Histogram["slow_deliveries_forced"] += out[i].blocks
+			sink.stats.Histogram["slow_operation_got_through_during_delivery"] += out[i].early
+			for _, o := range c.Ops {
+				if o.Slow > 0 {
+					sink.count("slow_op_" + o.K)
+				}
+			}
+			sink.add(fmt.Sprintf("mkcase %d 0 %s", c.Id, coqList(out[i].trace)), c, out[i].blocks > 0 && out[i].changes >= 3, strings.Join(out[i].trace, ";"))
+			for _, b := range out[i].bad {
+				sink.violation(c.Id, b, c)
+			}
+		}
+	}
+
 	if env.replay != "" {
 		var cs []c14Case
 		readReplay(t, env.replay, &cs)
-		var gridCases []*c14Case
+		var gridCases, slowCases []*c14Case
 		for i := range cs {
 			switch cs[i].Kind {
 			case "quiet":
 				emitQuiet(&cs[i])
 			case "grid":
 				gridCases = append(gridCases, &cs[i])
+			case "slow":
+				slowCases = append(slowCases, &cs[i])
 			}
 		}
+		emitSlow(slowCases)
 		emitGrid(gridCases, 8, false)
 		sink.close("replay")
 		return
@@ -927,6 +1278,19 @@ func TestVerifC14(t *testing.T) {
 		emitQuiet(c14GenQuiet(newVrng(env.seed, uint64(i)), id))
 		id++
 	}
+	// forced schedule: operations issued while a listener is still receiving (ids from 4000000)
+	nSlow := 60
+	if env.thorough() {
+		nSlow = 1000
+	}
+	slow := c14DirectedSlow()
+	for i, c := range slow {
+		c.Id = 4000000 + i
+	}
+	for i := 0; i < nSlow; i++ {
+		slow = append(slow, c14GenHistory(newVrng(env.seed, uint64(3000000+i)), 4000100+i, "slow", 22))
+	}
+	emitSlow(slow)
 	directed := c14Directed()
 	for _, c := range directed {
 		c.Id = id
@@ -952,5 +1316,5 @@ func TestVerifC14(t *testing.T) {
 		}
 	}
 	sink.stats.Notes = append(sink.stats.Notes, fmt.Sprintf("grid %v; grid cases executed twice and emitted only when both executions were on time and identical", grid))
-	sink.close("quiet: seeded histories of set/cas/remove/listener operations on the real TransientData (ttl none, hours, zero, negative), non-trivial = at least three changes; grid: real timers, operations at half-grid offsets, deadlines on grid points, non-trivial = at least one expiry; late: callback forced to wait for the mutex; concurrent: consistent cuts of several goroutines judged by the replica part; distinct = distinct traces")
+	sink.close("slow: a listener whose reception of the initial data / of a notification is held, the next operation of the history issued meanwhile (forced schedule; the trace lists what happened in the order it happened), non-trivial = a delivery was held and at least three changes; quiet: seeded histories of set/cas/remove/listener operations on the real TransientData (ttl none, hours, zero, negative), non-trivial = at least three changes; grid: real timers, operations at half-grid offsets, deadlines on grid points, non-trivial = at least one expiry; late: callback forced to wait for the mutex; concurrent: consistent cuts of several goroutines judged by the replica part; distinct = distinct traces")
 }
